@@ -271,12 +271,18 @@ class EveryNodeEmpty(Part):
         templates["notice/long"] = {"kind": "extendedResp", "id": 0, "controls": [("generic", "1.2", True, b"c")],
                                     "result": dict(res, diag="x" + "\u20ac" * 60), "name": _NOTICE, "value": None}
         templates["unbind/ctrl"] = {"kind": "unbindRequest", "id": 0, "controls": [("paged", True, 3, b"ck")]}
+        # the same control type / attribute name / value twice in one message
+        templates["repeated"] = {"kind": "searchResEntry", "id": 1, "controls": [("generic", "1.2.3.4", False, b"v"), ("generic", "1.2.3.4", True, None)],
+                                 "name": "cn=r", "attributes": [("cn", [b"same", b"same"]), ("cn", [b"x"])]}
+        templates["repeated/request"] = {"kind": "extendedReq", "id": 1, "controls": [("generic", "1.2.3.4", False, None), ("generic", "1.2.3.4", False, None)],
+                                         "name": "1.2.3.4", "value": b"1.2.3.4"}
         for tname, m in templates.items():
             data = rfc4511.encode(m)
             nodes = mutate.index_nodes(data)
             for side in ("client", "server"):
                 for i in range(len(nodes)):
-                    ops = [(op, 0) for op in ("empty", "len+1", "len-1", "constructed", "delete")] + [("bad-utf8", a) for a in range(8)]
+                    ops = ([(op, 0) for op in ("empty", "len+1", "len-1", "constructed", "delete")] + [("bad-utf8", a) for a in range(8)]
+                           + [("bad-utf8-same", a) for a in (0, 1, 2)])
                     for op, arg in ops:
                         for repair in (True, False):
                             if k % nshards == shard:
